@@ -35,7 +35,8 @@ type walker struct {
 }
 
 type c12Scenario struct {
-	Kind    string   `json:"kind"` // shared | swap
+	Kind    string   `json:"kind"`           // shared | swap
+	Spec    string   `json:"spec,omitempty"` // "" | custom-error-node | no-auto-error-node
 	Walkers []walker `json:"walkers"`
 	Swaps   int      `json:"swaps,omitempty"`
 }
@@ -69,6 +70,28 @@ func sharedSpec(version int) *rstep.ASpec {
 		"jfail": {Action: actlang.P(false, tick, Op{K: actlang.Emit, V: "lost"}, tick, Op{K: actlang.Throw}), Branches: []rstep.ABranch{{Target: "start"}}},
 		"errh":  {Type: "message", Branches: []rstep.ABranch{{Pattern: M{"go": "?g"}, Target: "a"}}},
 	}}
+}
+
+// buildSpecs compiles the three versions of the shared specification in one of its variants:
+// "" (action errors go to the handler node "errh"), "custom-error-node" (ErrorNode names another
+// node and there is no action-error node, so failing walks arrive at a literal "error" node the
+// compiled spec does not contain) and "no-auto-error-node".
+func buildSpecs(variant string) ([]*core.Spec, error) {
+	var specs []*core.Spec
+	for v := 1; v <= 3; v++ {
+		raw := sharedSpec(v).Raw()
+		switch variant {
+		case "custom-error-node":
+			raw.ErrorNode, raw.ActionErrorNode = "oops", ""
+		case "no-auto-error-node":
+			raw.NoAutoErrorNode, raw.ActionErrorNode = true, ""
+		}
+		if err := raw.Compile(context.Background(), nil, true); err != nil {
+			return nil, err
+		}
+		specs = append(specs, raw)
+	}
+	return specs, nil
 }
 
 func clone(x interface{}) interface{} {
@@ -128,6 +151,7 @@ type c12Run struct {
 	done    [8]bool
 	begins  [8]int // walker index -> number of completed SetSpec calls when its walk began
 	sets    int
+	specs   []*core.Spec
 }
 
 //go:norace
@@ -195,6 +219,13 @@ func c12Scenarios(thorough bool) []c12Scenario {
 		out = append(out, c12Scenario{Kind: "shared", Walkers: []walker{ws[0], ws[1], ws[4]}})
 		out = append(out, c12Scenario{Kind: "shared", Walkers: []walker{ws[2], ws[3], ws[4]}})
 	}
+	// failing walkers over specs whose "error" node is not the one Compile added
+	for _, variant := range []string{"custom-error-node", "no-auto-error-node"} {
+		out = append(out, c12Scenario{Kind: "shared", Spec: variant, Walkers: []walker{ws[2], ws[3]}})
+		out = append(out, c12Scenario{Kind: "shared", Spec: variant, Walkers: []walker{ws[0], ws[2]}})
+		out = append(out, c12Scenario{Kind: "shared", Spec: variant, Walkers: []walker{ws[1], ws[3], ws[2]}})
+	}
+	out = append(out, c12Scenario{Kind: "swap", Spec: "custom-error-node", Walkers: []walker{ws[2], ws[3]}, Swaps: 1})
 	out = append(out, c12Scenario{Kind: "swap", Walkers: []walker{ws[0]}, Swaps: 1})
 	out = append(out, c12Scenario{Kind: "swap", Walkers: []walker{ws[0], ws[1]}, Swaps: 1})
 	out = append(out, c12Scenario{Kind: "swap", Walkers: []walker{ws[0], ws[2]}, Swaps: 2})
@@ -209,19 +240,35 @@ func C12(c *vh.Ctx) {
 	if race {
 		bound = 1
 	}
-	var specs []*core.Spec
-	var before []string
-	for v := 1; v <= 3; v++ {
-		s, err := sharedSpec(v).Build()
+	variants := []string{"", "custom-error-node", "no-auto-error-node"}
+	specsOf := map[string][]*core.Spec{}
+	beforeOf := map[string][]string{}
+	for _, variant := range variants {
+		ss, err := buildSpecs(variant)
 		if err != nil {
 			c.Violation("C12/compile-failed", err.Error(), nil)
 			return
 		}
-		specs = append(specs, s)
-		before = append(before, snap.Of(s))
+		specsOf[variant] = ss
+		for _, s := range ss {
+			beforeOf[variant] = append(beforeOf[variant], snap.Of(s))
+		}
 	}
-	check := func(sc c12Scenario, x *sched.Exec, r *c12Run, solo map[string][]string) [][2]string {
+	// fresh: newly compiled specification objects for one execution (race pass and the error-node
+	// variants), so that anything built or memoised on first use is built under contention.
+	fresh := func(sc c12Scenario) []*core.Spec {
+		if !race && sc.Spec == "" {
+			return specsOf[sc.Spec]
+		}
+		ss, err := buildSpecs(sc.Spec)
+		if err != nil {
+			return specsOf[sc.Spec]
+		}
+		return ss
+	}
+	check := func(sc c12Scenario, specs []*core.Spec, x *sched.Exec, r *c12Run, solo map[string][]string) [][2]string {
 		var out [][2]string
+		before := beforeOf[sc.Spec]
 		if x.Deadlock != "" {
 			out = append(out, [2]string{"deadlock", x.Deadlock})
 		}
@@ -267,7 +314,7 @@ func C12(c *vh.Ctx) {
 			for v := 0; v < nv; v++ {
 				// the solo run is a one-thread execution under the scheduler, so that a cancellation
 				// delivered at a tick interrupts the script at that tick, exactly as in the concurrent runs
-				x, r := runC12(c12Scenario{Kind: "shared", Walkers: []walker{w}}, []*core.Spec{specs[v]}, nil, nil)
+				x, r := runC12(c12Scenario{Kind: "shared", Walkers: []walker{w}}, []*core.Spec{fresh(sc)[v]}, nil, nil)
 				_ = x
 				solo[w.Name] = append(solo[w.Name], r.results[0])
 			}
@@ -279,9 +326,10 @@ func C12(c *vh.Ctx) {
 		if c.LoadReplay(&cs) != nil {
 			return
 		}
+		specs := fresh(cs.Scenario)
 		x, r := runC12(cs.Scenario, specs, cs.Choices, cs.Sizes)
 		c.Eval()
-		for _, v := range check(cs.Scenario, x, r, soloOf(cs.Scenario)) {
+		for _, v := range check(cs.Scenario, specs, x, r, soloOf(cs.Scenario)) {
 			c.Violation("C12/"+v[0], v[1], cs)
 		}
 		return
@@ -291,7 +339,7 @@ func C12(c *vh.Ctx) {
 	if c.Shard == 0 {
 		c.Count("scenarios", int64(len(scs)))
 	}
-	c.Rule("one compiled specification (native and ECMAScript actions and guards, succeeding, failing and rejecting, each with yield points; one walker whose context is cancelled at its 3rd tick) walked by 2-3 threads with distinct states and messages; every interleaving at the yields (and, for the updatable spec, at the atomic load/store) with at most k deviations; oracle: each walk's stride-by-stride result equals its solo result (for swaps: its solo result under exactly one version, never an older version than one whose SetSpec had returned before the walk began); deep snapshot of the spec unchanged; race pass: ThreadSanitizer silent. states = scenarios, transitions = scheduler steps, traces = schedules; non-trivial = schedule with at least one deviation.")
+	c.Rule("one compiled specification (in three variants: action errors routed to a handler node; a custom ErrorNode name with failing walks arriving at a literal error node the compiled spec lacks; no automatic error node - the latter two and the whole race pass with freshly compiled objects per execution; native and ECMAScript actions and guards, succeeding, failing and rejecting, each with yield points; one walker whose context is cancelled at its 3rd tick) walked by 2-3 threads with distinct states and messages; every interleaving at the yields (and, for the updatable spec, at the atomic load/store) with at most k deviations; oracle: each walk's stride-by-stride result equals its solo result (for swaps: its solo result under exactly one version, never an older version than one whose SetSpec had returned before the walk began); deep snapshot of the spec unchanged; race pass: ThreadSanitizer silent. states = scenarios, transitions = scheduler steps, traces = schedules; non-trivial = schedule with at least one deviation.")
 	for i, sc := range scs {
 		if c.Expired() {
 			return
@@ -303,7 +351,9 @@ func C12(c *vh.Ctx) {
 		seen := map[string]bool{}
 		st := sched.Explore(bound, 400000, func(n uint64) bool { return c.Mine(n) }, c.Shard == 0,
 			func(p, pn []int) *sched.Exec {
+				specs := fresh(sc)
 				x, r := runC12(sc, specs, p, pn)
+				r.specs = specs
 				x.UserData = r
 				return x
 			},
@@ -319,16 +369,17 @@ func C12(c *vh.Ctx) {
 					sb.WriteString("|")
 				}
 				c.Outcome("results", sb.String())
-				for _, v := range check(sc, x, r, solo) {
+				for _, v := range check(sc, r.specs, x, r, solo) {
 					key := "C12/" + v[0]
 					if seen[key] {
 						c.R.ViolationKeys[key]++
 						continue
 					}
 					cs, ns := sched.Choices(x.Trace)
-					x2, r2 := runC12(sc, specs, cs, ns)
+					specs2 := fresh(sc)
+					x2, r2 := runC12(sc, specs2, cs, ns)
 					again := false
-					for _, v2 := range check(sc, x2, r2, solo) {
+					for _, v2 := range check(sc, specs2, x2, r2, solo) {
 						if v2[0] == v[0] {
 							again = true
 						}
